@@ -88,6 +88,9 @@ type frameResult struct {
 	err    string
 	hang   bool
 	panic  interface{}
+	// changedLater: index+1 of a frame whose bytes, as handed out by ReadMessage, were different at
+	// the end of the stream from what they were when it was returned (0 = none)
+	changedLater int
 }
 
 func runFramer(data []byte, sizes []int, eofWithData bool) (res frameResult) {
@@ -99,6 +102,15 @@ func runFramer(data []byte, sizes []int, eofWithData bool) (res frameResult) {
 			res.panic, res.hang = nil, true
 		}
 	}()
+	var held [][]byte // the slices as returned: the read loop queues them, the session parses them later
+	defer func() {
+		for i := range held {
+			if i < len(res.frames) && !bytes.Equal(held[i], res.frames[i]) {
+				res.changedLater = i + 1
+				return
+			}
+		}
+	}()
 	res.panic = catch(func() {
 		p := quickfix.VerifNewParser(r)
 		for {
@@ -108,6 +120,7 @@ func runFramer(data []byte, sizes []int, eofWithData bool) (res frameResult) {
 				res.err = err.Error()
 				return
 			}
+			held = append(held, f)
 			res.frames = append(res.frames, append([]byte(nil), f...))
 			if r.reads > limit || len(res.frames) > limit {
 				res.hang = true
@@ -282,6 +295,9 @@ func c12Property(t *rapid.T) {
 		}
 		if r.hang {
 			vk.Violation(t, c, "C12/hang/"+family, "%s reader did not terminate within the read bound on %s sizes %v", name, clip(stream), sizes)
+		}
+		if r.changedLater > 0 {
+			vk.Violation(t, c, "C12/frames/changed-after-later-reads/"+family, "%s reader: frame %d (%d bytes) as returned by ReadMessage no longer holds the bytes it was returned with once the rest of the stream had been read; stream %s sizes %v", name, r.changedLater-1, len(r.frames[r.changedLater-1]), clip(stream), sizes)
 		}
 	}
 	if ok, why := sameFrames(ref, got); !ok {
